@@ -104,6 +104,10 @@ func JSONGetNaturalLanguageField(val *fastjson.Value, prop string) NaturalLangua
 	}
 	v := val.Get(prop)
 	if v == nil {
+		// NOTE: more than one language value is written under the "<prop>Map" term
+		v = val.Get(prop + "Map")
+	}
+	if v == nil {
 		return nil
 	}
 	switch v.Type() {
